@@ -76,10 +76,18 @@ def jobs(tier, seed):
             # non C-contiguous inputs (Fortran order / transposed view): k=1 marks the memory layout
             for shape in ([2, 2], [3, 2], [2, 1, 2]):
                 out.append(('e2e-%s-%s-F' % (method, 'x'.join(map(str, shape))), dict(kind='e2e', k=1, c=0, shape=shape, method=method)))
+    # the arguments given to THIS call reach every evaluation of THIS call, also on an object that was called before with
+    # other arguments at the same point (c = derivative order n)
+    for method, n in (('central', 1), ('central', 2), ('forward', 1), ('backward', 2), ('complex', 1), ('complex', 2), ('multicomplex', 1)):
+        for shape in ([], [2]):
+            out.append(('args2-%s-n%d-%s' % (method, n, 'x'.join(map(str, shape)) or 's'),
+                        dict(kind='args2', k=0, c=n, shape=shape, method=method)))
     return out
 
 
 def run_job(job, kind, k, c, shape, method):
+    if kind == 'args2':
+        return args2(job, method, c, tuple(shape))
     if kind == 'unit':
         return unit(job, k, c, tuple(shape), nan_cols=(c - 1,) if method == 'nan' else ())
     if kind == 'vstack':
@@ -322,6 +330,60 @@ def e2e(job, method, shape, fortran=False):
                 job.violation('scalar-differs', dict(key='C08:e2e:%s:scalar-differs-from-array-entry' % method, kind='e2e', idx=list(idx)))
 
 
+
+def args2(job, method, n, shape):
+    """one Derivative object called twice at the same point with different positional and keyword arguments: the second
+    result is a term over the second call's arguments only and equals a fresh object's result"""
+    nd = cm.nd_mods()['nd']
+    xs = np.array([0.5, 1.25]) if shape else 0.75
+    A = [sn.real_var('arg_a%d' % i) for i in (1, 2)]
+    K = [sn.real_var('kw_k%d' % i) for i in (1, 2)]
+    c = [sn.real_var('c%d' % i) for i in range(3)]
+    seen = []
+
+    def f(x, a, key=None, full=None):
+        seen.append((a, key))
+        return a + c[0] + c[1] * x + key * c[2] * x * x
+
+    def mk():
+        gen = nd.MinStepGenerator(base_step=0.25, step_ratio=2.0, num_steps=4, step_nom=1.0)
+        return nd.Derivative(f, step=gen, method=method, n=n, order=2)
+
+    def harness():
+        del seen[:]
+        with tr.traced(), sn.abstract_division(products=True), cm.quiet():
+            d = mk()
+            r1 = d(xs, A[0], key=K[0])
+            n1 = len(seen)
+            r2 = d(xs, A[1], key=K[1])
+            second = list(seen[n1:])
+            fresh = mk()(xs, A[1], key=K[1])
+            return r1, r2, fresh, second
+    ex = sn.Explorer(harness, max_paths=64, timeout_ms=20000)
+    ps = list(ex.paths())
+    job.absorb_explorer(ex)
+    for p in ps:
+        if p.exc is not None:
+            job.violation('raises', dict(key='C08:args2:%s:raises:%s' % (method, type(p.exc).__name__), kind='args2', exc=repr(p.exc)[:300]))
+            continue
+        r1, r2, fresh, second = p.result
+        ok = len(second) > 0 and all(a is A[1] and k is K[1] for (a, k) in second)
+        if not job.confirm('every evaluation of the second call receives the second call\'s arguments', ok):
+            job.violation('forwarding', dict(key='C08:args2:%s:stale-arguments-passed' % method, kind='args2'))
+        used = set()
+        for v in (cm.flat_list(r2) if np.ndim(r2) else [r2]):
+            used |= {u for u in sn.value_vars(v) if not u.startswith('uf_')}
+        stale = sorted(used & {'arg_a1', 'kw_k1'})
+        if not job.confirm('second result is a term over the second call\'s arguments only', not stale):
+            job.violation('stale', dict(key='C08:args2:%s:second-call-uses-first-calls-arguments' % method, kind='args2', stale=stale))
+            continue
+        a2 = cm.flat_list(r2) if np.ndim(r2) else [r2]
+        af = cm.flat_list(fresh) if np.ndim(fresh) else [fresh]
+        same = len(a2) == len(af) and all(_same_c(u, v) for u, v in zip(a2, af))
+        if not job.confirm('second result equals a fresh object\'s result', same):
+            job.violation('differs', dict(key='C08:args2:%s:second-call-differs-from-fresh-object' % method, kind='args2'))
+
+
 def _same_c(a, b):
     a, b = sn.as_symc(a if not isinstance(a, np.ndarray) else a[()]), sn.as_symc(b if not isinstance(b, np.ndarray) else b[()])
     return _same(a.re, b.re) and _same(a.im, b.im)
@@ -400,6 +462,22 @@ def replay(cex):
         except ValueError:
             pass
         return False, 'vstack ok'
+    if kind == 'args2':
+        method, n, shape = cfg['method'], cfg['c'], tuple(cfg['shape'])
+        xs = np.array([0.5, 1.25]) if shape else 0.75
+        f = lambda x, a, key=None: a + 0.3 + 0.7 * x + key * 1.1 * x * x  # noqa
+        mk = lambda: nd.Derivative(f, method=method, n=n, order=2)  # noqa
+        for (a1, k1, a2, k2) in ((3.0, 2.0, -1.0, 4.0), (1e6, 2.0 ** 20, 0.5, 1.0), (0.0, 1.0, 7.0, -3.0), (3.0, 2.0 ** 20, 3.0, 4.0),
+                                 (3.0, 2.0, 1e6, 2.0)):
+            d = mk()
+            with cm.quiet():
+                d(xs, a1, key=k1)
+                got = d(xs, a2, key=k2)
+                want = mk()(xs, a2, key=k2)
+            if not np.array_equal(np.asarray(got), np.asarray(want)):
+                return True, ('Derivative(method=%s, n=%d): after a call with (a=%r, key=%r) the same object called at the same x with '
+                              '(a=%r, key=%r) returns %r, a fresh object %r' % (method, n, a1, k1, a2, k2, got, want))
+        return False, 'second call equals fresh object'
     if kind == 'e2e':
         method, shape = cfg['method'], tuple(cfg['shape'])
         size = int(np.prod(shape)) if shape else 1
